@@ -104,7 +104,7 @@ impl Property for C18 {
         "C18"
     }
     fn rule(&self) -> String {
-        "case = (a) a clause conclusion `Implemented(Trait<args>)` under a binder of type/lifetime/const variables and a goal built from it by instantiating the clause variables (with concrete types, placeholders, inference variables) and perturbing sub-terms — over variance-carrying ADTs and fn defs, references, raw pointers, arrays, slices, tuples, fn pointers, projections, opaque types — or (b) a generated F-horn program with goals, where every impl header is confronted with the goal's trait reference through RustIrDatabase::impls_for_trait. Oracle: if real unification (InferenceTable::relate, Invariant) of the existentially instantiated conclusion / impl header with the goal succeeds, the pre-filter must answer true / return the impl. Non-trivial = pair that unifies and has nesting depth >= 2 (the filter had to look inside); distinct by hash.".into()
+        "case = (a) a clause conclusion `Implemented(Trait<args>)` under a binder of type/lifetime/const variables and a goal built from it by instantiating the clause variables (with concrete types, placeholders, inference variables) and perturbing sub-terms — over variance-carrying ADTs and fn defs, references, raw pointers, arrays, slices, tuples, fn pointers, projections, opaque types — or (b) a generated F-horn program with goals, where every impl header is confronted with the goal's trait reference through RustIrDatabase::impls_for_trait — with the goal's type unknowns as general, as integer and as float variables. Oracle: if real unification (InferenceTable::relate, Invariant) of the existentially instantiated conclusion / impl header with the goal succeeds, the pre-filter must answer true / return the impl. Non-trivial = pair that unifies and has nesting depth >= 2 (the filter had to look inside); distinct by hash.".into()
     }
     fn assumptions(&self) -> Vec<String> {
         vec!["chalk's own unifier is the applicability oracle (it is checked against a reference unifier by C14)".into()]
@@ -215,7 +215,24 @@ impl Property for C18 {
                             GoalData::DomainGoal(DomainGoal::Holds(WhereClause::Implemented(tr))) => tr.clone(),
                             _ => continue,
                         };
-                        let returned = low.program.impls_for_trait(tr.trait_id, tr.substitution.as_slice(I), &canon.binders);
+                        // every goal is confronted in three variants of its unknowns' kinds: as written (general type
+                        // variables), and with the type unknowns turned into integer / float variables (`exists<int N>`)
+                        for variant in 0..3usize {
+                        let binders = CanonicalVarKinds::from_iter(
+                            I,
+                            canon.binders.iter(I).map(|b| match (&b.kind, variant) {
+                                (VariableKind::Ty(TyVariableKind::General), 1) => WithKind::new(VariableKind::Ty(TyVariableKind::Integer), *b.skip_kind()),
+                                (VariableKind::Ty(TyVariableKind::General), 2) => WithKind::new(VariableKind::Ty(TyVariableKind::Float), *b.skip_kind()),
+                                _ => b.clone(),
+                            }),
+                        );
+                        if variant > 0 && binders.iter(I).zip(canon.binders.iter(I)).all(|(x, y)| x.kind == y.kind) {
+                            continue;
+                        }
+                        // an integer / float variable is only ever created for a bare unknown: skip variants whose retyped
+                        // unknown occurs nowhere as a whole argument (nothing to learn) — the relate below is the oracle anyway
+                        let vtext = ["", " [type unknowns as integer variables]", " [type unknowns as float variables]"][variant];
+                        let returned = low.program.impls_for_trait(tr.trait_id, tr.substitution.as_slice(I), &binders);
                         for (impl_id, datum) in low.program.impl_data.iter() {
                             if datum.binders.skip_binders().trait_ref.trait_id != tr.trait_id {
                                 continue;
@@ -226,7 +243,7 @@ impl Property for C18 {
                                 for _ in 1..lg.peeled.goal.universes {
                                     table.new_universe();
                                 }
-                                let goal_tr = table.instantiate_canonical(I, Canonical { value: tr.clone(), binders: canon.binders.clone() });
+                                let goal_tr = table.instantiate_canonical(I, Canonical { value: tr.clone(), binders: binders.clone() });
                                 let impl_tr = table.instantiate_binders_existentially(I, datum.binders.map_ref(|b| b.trait_ref.clone()));
                                 table.relate(I, low.program.unification_database(), &Environment::new(I), Variance::Invariant, &impl_tr, &goal_tr).is_ok()
                             });
@@ -234,7 +251,7 @@ impl Property for C18 {
                                 Ok(unifies) => {
                                     let listed = returned.contains(impl_id);
                                     if unifies && !listed {
-                                        out.fail("impls-for-trait-omits-applicable-impl", format!("impl {:?} unifies with the goal `{}` but impls_for_trait does not return it\n{}", impl_id, lg.text, low.text));
+                                        out.fail("impls-for-trait-omits-applicable-impl", format!("impl {:?} unifies with the goal `{}`{} but impls_for_trait does not return it\n{}", impl_id, lg.text, vtext, low.text));
                                     }
                                     if unifies {
                                         out.nontrivial.push(hash_of(&(&low.text, &lg.text, format!("{:?}", impl_id))));
@@ -245,6 +262,7 @@ impl Property for C18 {
                                 }
                                 Err(m) => out.fail(format!("panic:{}", m), format!("panic {} goal {}\n{}", m, lg.text, low.text)),
                             }
+                        }
                         }
                     }
                 });
